@@ -535,6 +535,8 @@ class Axes(AbstractAxes, list):
     def from_shape(cls, shape, dims=None):
         """ return default axes based on shape
         """
+        if dims is not None and len(dims) != len(shape):
+            raise ValueError("{} dimension names for {} dimensions: {}".format(len(dims), len(shape), dims))
         axes = cls()
         for i,ni in enumerate(shape):
             if dims is None:
